@@ -343,6 +343,147 @@ def dict_use(tree):
     return len(set(seen)) == 4
 
 
+LAST_NAMES = ("_last_cpu_times", "_last_per_cpu_times", "_last_cpu_times_2", "_last_per_cpu_times_2")
+
+
+def _last_bindings(tree, name):
+    """[(context, value node or None, statement)] of every binding of the global `name`: at module level, inside a
+    module-level compound statement (`try:` / `except:` / `if` …, context says which), or inside a function."""
+    out = []
+
+    def targets(n):
+        tg = []
+        if isinstance(n, ast.Assign):
+            for t in n.targets:
+                tg += t.elts if isinstance(t, (ast.Tuple, ast.List)) else [t]
+        elif isinstance(n, (ast.AugAssign, ast.AnnAssign)):
+            tg = [n.target]
+        elif isinstance(n, (ast.For, ast.AsyncFor)):
+            tg = [n.target]
+        elif isinstance(n, (ast.With, ast.AsyncWith)):
+            tg = [i.optional_vars for i in n.items if i.optional_vars is not None]
+        elif isinstance(n, (ast.Import, ast.ImportFrom)):
+            return [a.asname or a.name.split(".")[0] for a in n.names]
+        elif isinstance(n, (ast.FunctionDef, ast.AsyncFunctionDef, ast.ClassDef)):
+            return [n.name]
+        return [t.id for t in tg if isinstance(t, ast.Name)]
+
+    def walk(stmts, ctx, infn):
+        for st in stmts:
+            if name in targets(st):
+                plain = isinstance(st, ast.Assign) and len(st.targets) == 1 and isinstance(st.targets[0], ast.Name)
+                out.append((ctx, st.value if plain else None, st))
+            if isinstance(st, (ast.FunctionDef, ast.AsyncFunctionDef)):
+                glob = any(isinstance(g, (ast.Global, ast.Nonlocal)) and name in g.names for g in ast.walk(st))
+                walk(st.body, "?in %s%s: " % (st.name, "" if glob else " (local)"), True)
+            elif isinstance(st, ast.ClassDef):
+                walk(st.body, "?in class %s: " % st.name, True)
+            elif isinstance(st, ast.Try):
+                walk(st.body, ctx + "try: ", infn)
+                for h in st.handlers:
+                    walk(h.body, ctx + "except %s: " % (_src(h.type) if h.type is not None else ""), infn)
+                walk(st.orelse, ctx + "else: ", infn)
+                walk(st.finalbody, ctx + "finally: ", infn)
+            elif isinstance(st, ast.If):
+                walk(st.body, ctx + "if %s: " % _src(st.test), infn)
+                walk(st.orelse, ctx + "if not (%s): " % _src(st.test), infn)
+            elif isinstance(st, (ast.For, ast.AsyncFor, ast.While, ast.With, ast.AsyncWith)):
+                walk(st.body, ctx + "loop/with: ", infn)
+                walk(getattr(st, "orelse", []), ctx + "loop-else: ", infn)
+    walk(tree.body, "", False)
+    return out
+
+
+def last_dict_defs(tree):
+    """TOTAL: `name: [context] source` of every value bound to one of the four `_last_*` names anywhere in the
+    module, by name, in source order. On the tree the proofs were made on: a dict display with the importing thread's
+    sample in a `try:`, `{}` in its `except Exception:` branch, and `.copy()` of the first two for the `_2` names —
+    builtin `dict`s all."""
+    out = []
+    for name in LAST_NAMES:
+        bs = _last_bindings(tree, name)
+        out += ["%s: %s%s" % (name, ctx, _src(v) if v is not None else "?" + _src(st).replace("\n", " ")[:120])
+                for ctx, v, st in bs] or ["%s: ?never bound" % name]
+    return out
+
+
+def _plain_dict_defs(tree):
+    """is every binding of the four names the binding of a builtin dict — a dict display (no `**` unpacking), or
+    `.copy()` of another of the four — made at module level (possibly inside a module-level try/except)?"""
+    for name in LAST_NAMES:
+        bs = _last_bindings(tree, name)
+        if not bs:
+            return False
+        for ctx, node, _st in bs:
+            if "?" in ctx or node is None:
+                return False
+            if isinstance(node, ast.Dict):
+                if any(k is None for k in node.keys):
+                    return False
+                continue
+            if not (isinstance(node, ast.Call) and not node.args and not node.keywords
+                    and isinstance(node.func, ast.Attribute) and node.func.attr == "copy"
+                    and isinstance(node.func.value, ast.Name) and node.func.value.id in LAST_NAMES
+                    and node.func.value.id != name):
+                return False
+    return True
+
+
+def last_dict_other_uses(tree):
+    """TOTAL: every occurrence of one of the four `_last_*` names that is NOT one of the accesses the model
+    transcribes — the target of a binding (listed by `lastDictDefs`), `X.get(tid)`, `X[tid]` read, `X[tid] = …`,
+    `X.copy()` as the value bound to another of the four at module level — as `where: source of the statement`.
+    A deletion, `pop`/`popitem`/`clear`, `len(X)`, iteration, passing the object to a helper, aliasing it, a
+    key that is not `tid` … all land here (empty on the tree the proofs were made on)."""
+    parent = {}
+    for n in ast.walk(tree):
+        for ch in ast.iter_child_nodes(n):
+            parent[ch] = n
+    out = []
+    for n in ast.walk(tree):
+        if not (isinstance(n, ast.Name) and n.id in LAST_NAMES):
+            continue
+        p = parent.get(n)
+        pp = parent.get(p)
+        ppp = parent.get(pp)
+        ok = False
+        if isinstance(p, (ast.Assign, ast.AnnAssign)) and isinstance(n.ctx, ast.Store):
+            ok = True                                               # a binding: lastDictDefs
+        elif isinstance(p, ast.Attribute) and p.value is n and p.attr == "get" and isinstance(pp, ast.Call) \
+                and pp.func is p and len(pp.args) == 1 and not pp.keywords and extract.dotted(pp.args[0]) == "tid":
+            ok = True
+        elif isinstance(p, ast.Subscript) and p.value is n and extract.dotted(p.slice) == "tid" \
+                and isinstance(p.ctx, (ast.Load, ast.Store)):
+            ok = isinstance(p.ctx, ast.Load) or (isinstance(pp, ast.Assign) and pp.targets == [p])
+        elif isinstance(p, ast.Attribute) and p.value is n and p.attr == "copy" and isinstance(pp, ast.Call) \
+                and pp.func is p and not pp.args and not pp.keywords and isinstance(ppp, ast.Assign) \
+                and ppp in tree.body and len(ppp.targets) == 1 and isinstance(ppp.targets[0], ast.Name) \
+                and ppp.targets[0].id in LAST_NAMES:
+            ok = True
+        if ok:
+            continue
+        st = n
+        while st in parent and not isinstance(st, ast.stmt):
+            st = parent[st]
+        fn = st
+        while fn in parent and not isinstance(fn, (ast.FunctionDef, ast.AsyncFunctionDef, ast.ClassDef)):
+            fn = parent[fn]
+        where = fn.name if isinstance(fn, (ast.FunctionDef, ast.AsyncFunctionDef, ast.ClassDef)) else "module"
+        out.append("%s: %s" % (where, _src(st).replace("\n", " ")[:160]))
+    return out
+
+
+def last_store_bound(tree):
+    """`none` (Option Nat) when the four objects are builtin dicts that are only read and written by key (see the two
+    facts above): nothing is ever dropped. Any other container / access: NotRecognised (the fact is skipped, the
+    baseline value kept, and the obligation `cfg_store_plain_dict` fails on the two list facts)."""
+    uses = last_dict_other_uses(tree)
+    if not _plain_dict_defs(tree) or uses:
+        raise NotRecognised("the _last_* containers are not plain dicts accessed by key only: %s %s"
+                            % (last_dict_defs(tree)[:4], uses[:3]))
+    return None
+
+
 def _branches(tree):
     """[(label, statements of that branch)] for the four (function, percpu) branches; None when `if not percpu:` is gone."""
     out = []
@@ -629,3 +770,13 @@ def facts(snap, F):
               "exception classes Process.cpu_percent catches itself")
     F.try_add("procStores", "List String", lambda: LS(proc_stores(init)),
               "assignments to attributes of self in Process.cpu_percent with the `if` tests they are nested in")
+    # ---- seeded round 5: what kind of container the per-thread samples are filed in
+    F.try_add("lastDictDefs", "List String", lambda: LS(last_dict_defs(init)),
+              "every value bound to _last_cpu_times / _last_per_cpu_times / _last_cpu_times_2 / _last_per_cpu_times_2, as "
+              "`name: source` (dict displays and .copy() of them: builtin dicts)")
+    F.try_add("lastDictOtherUses", "List String", lambda: LS(last_dict_other_uses(init)),
+              "every use of the four _last_* objects other than binding, X.get(tid), X[tid], X[tid] = …, X.copy() bound to a "
+              "_2 name (a deletion, pop, clear, len, iteration, aliasing, another key … would be listed here)")
+    F.try_add("lastStoreBound", "Option Nat", lambda: extract.lean_opt(last_store_bound(init), str),
+              "how many entries the _last_* containers hold at most: none = builtin dicts accessed by key only, nothing "
+              "is ever dropped")
